@@ -24,9 +24,17 @@ A stream is the list of its NAL units in stream order (the chunked reader below 
 What the Dolby Vision library contributes (re-encoding one RPU NAL under `-m` / `--crop` / `--edit-config`)
 is the parameter `conv : Bytes → Option Bytes` (`none` = the library refuses).
 
-Not modelled (never reached by the checks' inputs): Matroska input, `--limit`, the lookups of a frame by its
-decode number that the tool performs for the AUD / RPU of a frame buffer (assumed to succeed: every label is the
-number of a parsed frame), progress output.
+Frames are numbered `0 .. nFrames-1` in decode order (`Frame::decoded_number`); hevc_parser's labels are
+non-decreasing and at most `nFrames`.  The label `nFrames` is what it gives the NALs that follow the last slice of
+the stream and would open a new access unit (an AUD, a prefix SEI, VPS/SPS/PPS, … after the last slice): no frame
+has that number, and `finalize` of inject-rpu and of mux does not write a last frame buffer with that number
+(`frame_buffer.frame_number != total_frames`) — those NALs are silently dropped.  The lookups of a frame by its
+decode number that the tool performs for the AUD / RPU of a frame buffer succeed exactly for labels below
+`nFrames` (inject-rpu, second pass: the frame list is complete); for mux, which looks the frame up in the parser's
+state at that moment, a label below `nFrames` is assumed to be the number of a frame parsed by then (true of
+hevc_parser: the label of a closed buffer is below the label of the NAL closing it).
+
+Not modelled (never reached by the checks' inputs): Matroska input, `--limit`, progress output.
 
 A result `none` always means: the command ends with an error status (a `bail!`, a propagated `Err`, or a
 panic) — whatever was written before is not described.
@@ -371,14 +379,23 @@ def postEos (body : List (Nat × Bytes)) : List (Nat × Bytes) :=
   (body.reverse.takeWhile (fun x => isEos x.1)).reverse
 
 /-- one closed frame buffer `(frame number, NALs)`; `last` = `last_metadata_written`.
-Returns the written NALs and the new `last`. -/
-def injectFrame (c : ICfg) (aud : Nat → Bytes) (pres : Nat → Nat) (rpus : List Bytes) (mismatched : Bool)
-    (last : Option Bytes) (final : Bool) (fr : Nat × List Item) : Option (List Out × Option Bytes) :=
+Returns the written NALs and the new `last`.
+
+* `final` (the buffer left for `finalize`): nothing is written when its number equals the frame count or it holds
+  no NAL (`frame_number != total_frames && !nals.is_empty()`).
+* The AUD is made for `frames.find(decoded_number == frame_number).unwrap()`: a panic when no frame has the
+  number (`nFrames ≤ fr.1`), unless --no-add-aud.
+* `get_rpu_and_index_to_insert`: the RPU is `rpus[presentation_number]` of that frame; without such an entry, or
+  without such a frame, `last_metadata_written` when the lengths differ, else the command fails. -/
+def injectFrame (c : ICfg) (aud : Nat → Bytes) (pres : Nat → Nat) (nFrames : Nat) (rpus : List Bytes)
+    (mismatched : Bool) (last : Option Bytes) (final : Bool) (fr : Nat × List Item) :
+    Option (List Out × Option Bytes) :=
   let body0 := (fr.2.filter (fun it => it.typ ≠ NAL_UNSPEC62)).map payI
-  if final ∧ body0 = [] then some ([], last)
+  if final ∧ (fr.1 = nFrames ∨ body0 = []) then some ([], last)
+  else if c.noAddAud = false ∧ nFrames ≤ fr.1 then none
   else
     let body := if c.noAddAud then body0 else (NAL_AUD, aud fr.1) :: body0
-    match (match rpus[pres fr.1]? with
+    match (match (if fr.1 < nFrames then rpus[pres fr.1]? else none) with
            | some r => some r
            | none => if mismatched then last else none) with
     | none => none
@@ -386,25 +403,26 @@ def injectFrame (c : ICfg) (aud : Nat → Bytes) (pres : Nat → Nat) (rpus : Li
       if preEos body = [] then none
       else some (withSc c.annexb (preEos body ++ (NAL_UNSPEC62, r) :: postEos body), some r)
 
-def injectGo (c : ICfg) (aud : Nat → Bytes) (pres : Nat → Nat) (rpus : List Bytes) (mismatched : Bool) :
-    Option Bytes → List (Nat × List Item) → Option (List Out)
+def injectGo (c : ICfg) (aud : Nat → Bytes) (pres : Nat → Nat) (nFrames : Nat) (rpus : List Bytes)
+    (mismatched : Bool) : Option Bytes → List (Nat × List Item) → Option (List Out)
   | _, [] => some []
   | last, [fr] =>
-    match injectFrame c aud pres rpus mismatched last true fr with
+    match injectFrame c aud pres nFrames rpus mismatched last true fr with
     | none => none
     | some (o, _) => some o
   | last, fr :: rest =>
-    match injectFrame c aud pres rpus mismatched last false fr with
+    match injectFrame c aud pres nFrames rpus mismatched last false fr with
     | none => none
     | some (o, last') =>
-      match injectGo c aud pres rpus mismatched last' rest with
+      match injectGo c aud pres nFrames rpus mismatched last' rest with
       | none => none
       | some os => some (o ++ os)
 
 /-- inject-rpu.  `rpus` = the NAL units (`7C 01 …`) the library writes for the entries of the RPU file,
 in file order.  Existing AUDs are ignored altogether when AUDs are added.  A list shorter than the video:
 frames whose presentation number lies beyond the list receive the RPU written last (in decode order), and
-the command fails when there is none yet. -/
+the command fails when there is none yet.  NALs labelled `nFrames` (behind the last slice of the stream) form
+the last frame buffer, which `finalize` does not write: they are dropped, no RPU is written for them. -/
 def inject (c : ICfg) (aud : Nat → Bytes) (pres : Nat → Nat) (nFrames : Nat) (rpus : List Bytes)
     (items : List Item) : Option (List Out) :=
   if nFrames = 0 ∨ items = [] then some []
@@ -413,7 +431,7 @@ def inject (c : ICfg) (aud : Nat → Bytes) (pres : Nat → Nat) (nFrames : Nat)
     | none => none
     | some its =>
       let its' := if c.noAddAud then its else its.filter (fun it => it.typ ≠ NAL_AUD)
-      injectGo c aud pres rpus (decide (nFrames ≠ rpus.length)) none (frames its')
+      injectGo c aud pres nFrames rpus (decide (nFrames ≠ rpus.length)) none (frames its')
 
 /-! ## mux -/
 
@@ -472,33 +490,48 @@ def blSplit (c : MCfg) (aud : Nat → Bytes) (fr : Nat × List Item) : List Out 
 
 /-- BL frame buffers against the queue of EL frames.  A closed (non-final) BL frame takes the front EL
 frame only when another EL frame is queued behind it (`buffered_frames.len() > 1`, after reading on);
-`finalize` writes the last BL frame (unless its buffer is empty) with the then-front EL frame and reports
-an error when EL frames remain.  Result: the written NALs and the error flag. -/
-def muxGo (c : MCfg) (aud : Nat → Bytes) : List (Nat × List Item) → List (List Out) → List Out × Bool
+`finalize` writes the last BL frame — unless its number is the frame count or its buffer is empty
+(`frame_number != total_frames && !nals.is_empty()`) — with the then-front EL frame and reports an error when EL
+frames remain; when it does not write the last BL frame, it neither writes an EL frame nor looks for remaining
+ones.  Result: the written NALs and the error flag. -/
+def muxGo (c : MCfg) (aud : Nat → Bytes) (nFrames : Nat) :
+    List (Nat × List Item) → List (List Out) → List Out × Bool
   | [], _ => ([], false)
   | [fr], els =>
-    if blBody c fr.2 = [] then ([], false)
+    if fr.1 = nFrames ∨ blBody c fr.2 = [] then ([], false)
     else ((blSplit c aud fr).1 ++ els.head?.getD [] ++ (blSplit c aud fr).2, decide (els.length > 1))
   | fr :: rest, els =>
     match els with
     | e :: e2 :: els' =>
-      let r := muxGo c aud rest (e2 :: els')
+      let r := muxGo c aud nFrames rest (e2 :: els')
       ((blSplit c aud fr).1 ++ e ++ (blSplit c aud fr).2 ++ r.1, r.2)
     | _ =>
-      let r := muxGo c aud rest els
+      let r := muxGo c aud nFrames rest els
       ((blSplit c aud fr).1 ++ (blSplit c aud fr).2 ++ r.1, r.2)
 
-/-- mux.  Assumptions on the labels (true of hevc_parser's on every stream generated): they are non-decreasing
-within each layer (the EL handler's merge of a NAL into an already buffered frame of the same number is not
-modelled) and below the frame count (NALs labelled with the frame count — e.g. an AUD after the last slice — are
-not written by `finalize`).  RPU conversions are modelled eagerly: the tool converts an EL RPU when it reads it,
-so an unconvertible RPU in EL frames that are never read (EL much longer than BL) does not make it panic.
-`none`: an SEI does not parse or an RPU conversion panics; `some (out, true)`: the EL has more
-frames than the BL — the output is trimmed to the BL length and the exit status is an error. -/
-def mux (c : MCfg) (aud : Nat → Bytes) (conv : Bytes → Option Bytes) (bl el : List Item) :
+/-- the frame lookups for the regenerated AUDs (none with --no-add-aud): a buffer closed in `process_nals` whose
+number is not that of a frame ends the command ("No previous frame found"); in `finalize` the lookup
+(`.unwrap()`) is made only when the buffer is written. -/
+def muxAudFramesOk (c : MCfg) (nFrames : Nat) : List (Nat × List Item) → Bool
+  | [] => true
+  | [fr] => c.noAddAud || decide (fr.1 ≤ nFrames) || decide (blBody c fr.2 = [])
+  | fr :: rest => (c.noAddAud || decide (fr.1 < nFrames)) && muxAudFramesOk c nFrames rest
+
+/-- mux.  `nFrames` = the frame count of the BL (`parser.ordered_frames().len()` in `Muxer::finalize`).
+Assumptions on the labels (true of hevc_parser's on every stream generated): they are non-decreasing within each
+layer (the EL handler's merge of a NAL into an already buffered frame of the same number is not modelled).  BL NALs
+labelled `nFrames` (behind the last slice of the BL: e.g. an AUD, a prefix SEI, parameter sets) close the buffer of
+the last frame like any NAL of a new frame and are themselves left to `finalize`, which does not write them — nor
+the EL frame that was held back for the last BL frame.  RPU conversions are modelled eagerly: the tool converts an
+EL RPU when it reads it, so an unconvertible RPU in EL frames that are never read (EL much longer than BL) does not
+make it panic.
+`none`: an SEI does not parse, an RPU conversion panics, or no frame is found for an AUD; `some (out, true)`: the EL
+has more frames than the BL — the output is trimmed to the BL length and the exit status is an error. -/
+def mux (c : MCfg) (aud : Nat → Bytes) (conv : Bytes → Option Bytes) (nFrames : Nat) (bl el : List Item) :
     Option (List Out × Bool) :=
   match seiStage c.drop bl, elFrames c conv (runs el) with
-  | some b, some es => some (muxGo c aud (frames b) es)
+  | some b, some es =>
+    if muxAudFramesOk c nFrames (frames b) then some (muxGo c aud nFrames (frames b) es) else none
   | _, _ => none
 
 end Dovi.Hevc
